@@ -5,6 +5,11 @@ import (
 	"github.com/jsightapi/jsight-schema-core/errs"
 )
 
+// maxExponent the maximum absolute value of the exponent. The number is kept as
+// a string of digits, so the exponent is limited to protect from the memory
+// exhaustion.
+const maxExponent = 1000000
+
 type scanner struct {
 	stateFn func(byte) bool
 
@@ -72,6 +77,9 @@ func (s *scanner) setExp(value bytes.Bytes) error {
 	exp, err := value.SubLow(s.expBegin).ParseInt()
 	if err != nil {
 		return err
+	}
+	if exp > maxExponent || exp < -maxExponent {
+		return errs.ErrIncorrectExponentValue.F()
 	}
 	// example with negative exp: 12.34E-1 = 1.234; exp = -1; intLen = 2 + (-1) = 1
 	// example with positive exp: 12.34E+1 = 123.4; exp =  1; intLen = 2 + 1    = 3
